@@ -612,7 +612,7 @@ def rule_initcap_sink(ctx):
     want_sinks = {'unsync', 'sync'} if ctx.has_sync else {'unsync'}
     if not r.violations and not want_sinks <= sinks:
         raise CheckFailure('FLOW-initcap-sink: the value tracked as initial_capacity does not reach the map constructor of %s -- the rule would pass vacuously (anchor moved?)' % sorted(want_sinks - sinks))
-    r.require_floor(3, 'uses of initial_capacity')
+    r.require_floor(3 if ctx.has_sync else 2, 'uses of initial_capacity')
     return r
 
 
@@ -795,5 +795,5 @@ def rule_weigh_exact(ctx):
                           'accounting no longer sums the user\'s weigher over the entries' % (nid, fmt(ret)[:60], 'is configured' if has else ('is absent' if has is False else 'may or may not be configured'),
                                                                                              [fmt(c)[:40] + '==' + str(v) for c, v in other][:3]), where=ctx.where(nid),
                           expected='weigher.map(|w| w(key, value)).unwrap_or(1)')
-    r.require_floor(4 if ctx.has_sync else 2, 'paths of the weigh role(s)')
+    r.require_floor(4 if ctx.has_sync else 1, 'paths of the weigh role(s)')
     return r
